@@ -246,6 +246,12 @@ func NewGen(r *rand.Rand) *Gen {
 func (g *Gen) count(k string)          { g.Stats[k]++ }
 func (g *Gen) pick(xs []string) string { return xs[g.r.Intn(len(xs))] }
 func (g *Gen) chance(n int) bool       { return n > 0 && g.r.Intn(n) == 0 }
+func (g *Gen) pick2(a, b Expr) Expr {
+	if g.r.Intn(2) == 0 {
+		return a
+	}
+	return b
+}
 
 var intSpellings = []string{"0", "1", "2", "3", "7", "10", "42", "255", "1000", "65536", "00", "01", "007", "017", "0x0", "0x1", "0X1f", "0xFF", "0xdeadBEEF", "9223372036854775807", "4611686018427387904", "2147483648", "123456789"}
 var badIntSpellings = []string{"08", "0x", "9223372036854775808", "09", "99999999999999999999"}
@@ -255,7 +261,8 @@ var strSpellings = []string{`""`, `"a"`, `"ab"`, `"hello world"`, `"x y"`, `"#no
 var badStrSpellings = []string{`"\q"`, `"\x4"`, `"\u12"`, `"\400"`, `"\'"`}
 var varNames = []string{"a", "b", "c", "x", "y", "z", "tmp_1", "Foo", "_u", "x2", "t"}
 var fieldNames = []string{"f", "g", "h", "port", "host", "name", "x", "a", "max_conn", "Flag", "t", "u", "db"}
-var typeNames = []string{"srv", "db", "t", "u", "conf", "f", "x"}
+// block types: some differ only in case or underscores (they are different types to bind)
+var typeNames = []string{"srv", "db", "t", "u", "conf", "f", "x", "srv_x", "SrvX", "srvx", "Srv", "SRV", "d_b"}
 var blockNames = []string{`"n1"`, `"n2"`, `"a b"`, `"é"`, `""`, `"x.y"`, `"q\"q"`}
 
 func (g *Gen) lit(kind string) Lit {
@@ -425,7 +432,18 @@ func (g *Gen) expr1(sc *scope, want string, depth int) Expr {
 		op := g.pick([]string{"and", "or"})
 		g.count("expr." + op)
 		// mixed-type operand on the side that may be returned or skipped
-		return Binary{op, g.expr(sc, g.pick([]string{want, "bool", "nil"}), d), g.expr(sc, want, d)}
+		right := g.expr(sc, want, d)
+		if g.chance(12) {
+			// a right operand of several hundred code bytes: the jump over it needs both operand bytes
+			n := 130 + g.r.Intn(300)
+			g.count("expr." + op + ".long-right-operand")
+			var long Expr = Lit{"int", "1"}
+			for k := 1; k < n; k++ {
+				long = Binary{"+", long, Lit{"int", g.pick([]string{"1", "2", "0"})}}
+			}
+			right = Paren{Binary{"and", long, right}}
+		}
+		return Binary{op, g.expr(sc, g.pick([]string{want, "bool", "nil"}), d), right}
 	}
 	switch want {
 	case "int":
@@ -478,7 +496,12 @@ func (g *Gen) expr1(sc *scope, want string, depth int) Expr {
 			n := Expr(Lit{"int", fmt.Sprint(g.r.Intn(5))})
 			if g.chance(10) {
 				g.count("expr.str*neg")
-				n = Unary{"-", Lit{"int", "1"}}
+				n = Unary{"-", Lit{"int", g.pick([]string{"1", "2", "0"})}}
+				if g.chance(2) {
+					// an empty string and a negative count
+					g.count("expr.emptystr*neg")
+					return Binary{"*", g.pick2(Lit{"str", `""`}, Binary{"+", Lit{"str", `""`}, Lit{"str", `""`}}), n}
+				}
 			}
 			return Binary{"*", g.expr(sc, "str", d), n}
 		default:
